@@ -10,9 +10,12 @@ Tie: `persim.heat.evalHeatKernel` / `heat` vs the same model executed at Float (
 import math
 import numpy as np
 from .. import common
+from ..translator import py2lean
 from ..common import enc, ask, call
 
 LEVEL = "proof"
+TRUSTED = [py2lean.trusted_note("heat")]
+PROP_FILES = ["PersimVerif/Props/C14.lean", py2lean.prop_file("heat")]
 RULE = ("pairs/triples of diagrams from one PRNG: sizes 0-8 (thorough 0-14), coordinates from lattice/half/dyadic/decimal/"
         "uniform modes (scales 2^-20..2^20), duplicates and diagonal points; kinds random / reordered-equal / nearly-equal "
         "(relative perturbation 1e-3..1e-15) / one or both empty; sigma = 10^U(-3,3), with prob 0.7 multiplied by the squared "
@@ -274,7 +277,13 @@ def search_failing_input(ctx, F, G, sigma, line, code, model):
 
 # ----------------------------------------------------------------------------- run
 
+def pre_build(ctx):
+    """source translator (DESIGN.md 3.2): regenerate Generated/SrcHeat.lean from PERSIM_ROOT's source"""
+    py2lean.pre_build(ctx, ("heat",))
+
+
 def run(ctx):
+    py2lean.report_broken(ctx, PROP_FILES)
     ctx.extra["source_digest"] = {"persim/heat.py": common.source_digest("persim/heat.py", ["heat", "evalHeatKernel"])}
     nmax = 14 if ctx.thorough else 8
     corpus = [
@@ -396,3 +405,4 @@ MANIFEST = {
             "guarded only by the [T] stream on reordered equal and nearly equal diagrams.",
     "technique": "Lean 4 theorems over a hand-written model + differential correspondence with the real code + metamorphic tests",
 }
+MANIFEST["note"] += " " + py2lean.manifest_note("heat")
